@@ -17,7 +17,7 @@ pub fn run(ctx: &Ctx) -> Report {
     let mut rep = Report::new(
         "exploration",
         "case i: one generated tree (profile=i%14); a member named _sd / ... is planted at EVERY object position (and as a new \
-         single-member object appended to EVERY array) in turn, value kind rotating over 15 kinds (plain values and genuine-looking digest lists / placeholders), under 4 strategies x 2 formats; \
+         single-member object appended to EVERY array) in turn, value kind rotating over 15 kinds (plain values and genuine-looking digest lists / placeholders), under 5 strategies (incl. Custom with an empty list) x 2 formats; \
          control = the unplanted tree and 9 near-miss plants must be issued. evaluations = issue_sd_jwt calls. Distinct = (claims \
          shape, plant position index, name, strategy, format); every planted case is non-trivial.",
         local,
@@ -110,6 +110,8 @@ fn one_case(ctx: &Ctx, case: u64, l: &mut Local) {
         gen::gen_strategy(&mut r, &u, StratKind::TopLevel),
         gen::gen_strategy(&mut r, &u, StratKind::AllLevels),
         gen::gen_strategy(&mut r, &u, StratKind::Custom40),
+        // Custom with an EMPTY selector list (hides nothing; the refusal still applies)
+        gen::custom_strategy_for(&mut r, &[]),
     ];
     // "with any value": plain values, and values that look exactly like what the issuer itself
     // would write there (lists of genuine-looking SHA-256 digests, a digest string, a placeholder)
